@@ -105,7 +105,12 @@ EmitKey == LET N == Nets[c.n] K == Keys[c.key] IN
                  addr_c |-> IF Defined(N, "p2pkh") THEN <<KeyAddrTerm(N, K.secc)>> ELSE <<>>,
                  addr_u |-> IF Defined(N, "p2pkh") THEN <<KeyAddrTerm(N, K.secu)>> ELSE <<>>,
                  bip49 |-> IF Defined(N, "p2sh") THEN <<Bip49AddrTerm(N, K.secc)>> ELSE <<>>,
-                 bip84 |-> IF Defined(N, "p2wpkh") THEN <<Bip84AddrTerm(N, K.secc)>> ELSE <<>>]))
+                 bip84 |-> IF Defined(N, "p2wpkh") THEN <<Bip84AddrTerm(N, K.secc)>> ELSE <<>>,
+                 \* the same address rules over the hash of the UNcompressed serialisation, for callers that ask for it
+                 \* (the key's hash is then HASH160 of that form; a library may also refuse - segwit policy - but it
+                 \* may not answer with the address of another hash)
+                 bip49_u |-> IF Defined(N, "p2sh") THEN <<Bip49AddrTerm(N, K.secu)>> ELSE <<>>,
+                 bip84_u |-> IF Defined(N, "p2wpkh") THEN <<Bip84AddrTerm(N, K.secu)>> ELSE <<>>]))
 \* one export step per case (the print is the last conjunct: every variable is determined)
 Export == /\ ~done /\ done' = TRUE /\ UNCHANGED <<c, phase>>
           /\ CASE phase = "cases" -> EmitCase [] phase = "keys" -> EmitKey [] OTHER -> TRUE
